@@ -206,6 +206,13 @@ EXPLORE.update({
            "disjunctions and aliased nodes; the bn task has six listed known findings (it crashes or mis-exports on the other "
            "classes, and on deterministic queries).",
 })
+EXPLORE.update({
+    "C24": "Two-state run-time contract on LFIProblem.step, iterated 12 times on the real object with the command line's "
+           "defaults, for seeded learning problems (t(_) facts, one t(_) annotated disjunction, rules; 30 sampled examples, "
+           "complete or partial): the returned log-likelihood never decreases, every parameter stays in [0,1], the "
+           "parameters of the AD sum to at most 1, and on complete data the first step returns the relative frequencies. "
+           "One known finding.",
+})
 FUNCTION_LEVEL = ("C11", "C13", "C14", "C18", "C17")
 FN_BOUNDED_TECH = ("run-time contract (pre/post-condition against an independent reference) on the real functions over a "
                    "bounded input family; the deductive contracts planned for these functions were not built, so nothing "
